@@ -225,4 +225,8 @@ func (cw *clientWorld) close() {
 	cancel()
 	cw.w.Close()
 	synctest.Wait()
+	// let handlers that were still on their way in (1 ms inbound delay) and stream goroutines run out before the
+	// bubble's main goroutine returns
+	time.Sleep(100 * time.Millisecond)
+	synctest.Wait()
 }
